@@ -207,3 +207,11 @@ Proof.
   - pose proof (rem_bound_nonneg (- a) b Hb ltac:(lia)) as H.
     rewrite Z.rem_opp_l in H by assumption. lia.
 Qed.
+
+(* converting a literal that fits both types does nothing *)
+Lemma ccast_clit f t z :
+  in_rangeb f z = true -> in_rangeb t z = true -> ccast f t (clit f z) = Some z.
+Proof.
+  intros Hf Ht. unfold ccast, clit. rewrite Hf. simpl. f_equal.
+  apply cwrap_id. destruct (in_rangeb_spec t z); [assumption|discriminate].
+Qed.
